@@ -32,7 +32,7 @@ CROSS = {
     # wave 6
     "C04-A6": ["C11"], "C04-B6": ["C10"], "C15-B6": ["C02"], "C11-A6": ["C10"], "C11-B6": ["C10"], "C13-A6": ["C01"], "C07-A6": ["C11"],
     "C07-B6": ["C01"], "C03-B6": ["C15"], "C14-B6": ["C02"], "C16-A6": ["C01"], "C01-A6": ["C13"], "C02-A6": ["C03"], "C08-B6": ["C16"],
-    "C09-B6": ["C10"], "C14-A6": ["C05"], "C08-A6": ["C16"], "C16-B6": ["C01"],
+    "C09-B6": ["C10"], "C09-A6": ["C10"], "C10-A6": ["C12"], "C12-B6": ["C11"], "C14-A6": ["C05"], "C08-A6": ["C16"], "C16-B6": ["C01"],
 }
 
 
